@@ -449,6 +449,14 @@ def fam_c09():
         vals = [Id("zz") if j == bad else PV(j + 1, I(j + 1)) for j in range(3)]
         add("return-multi-bad%d" % bad, [FnStmt("f", [], [Defer(Call("p", I(9))), P(0), Ret(*vals)]), Try([P(Call("f")), P(50)], "e", [P(60)], f=[P(61)]), P(62), Ret(I(0))])
         add("return-multi-bad%d-top" % bad, [P(0), Ret(*vals)])
+    # `defer name(...)`: the callee is whatever the name is bound to when THAT defer statement runs, every time it runs
+    add("defer-name-per-invocation", [FnStmt("d1", [], [P(1), Ret(I(0))]), FnStmt("d2", [], [P(2), Ret(I(0))]), FnStmt("run", ["cb"], [Defer(Call("cb")), P(0), Ret(I(0))]),
+                                      E(Call("run", Id("d1"))), E(Call("run", Id("d2"))), E(Call("run", Id("d1"))), Ret(I(0))])
+    add("defer-name-rebound-in-loop", [FnStmt("d1", [], [P(1), Ret(I(0))]), FnStmt("d2", [], [P(2), Ret(I(0))]),
+                                       FnStmt("f", [], [Let("h", Id("d1")), ForIn("i", L(I(1), I(2), I(3)), [Defer(Call("h")), Let("h", Id("d2"))]), P(0), Ret(I(0))]), E(Call("f")), Ret(I(0))])
+    add("defer-name-closure-per-call", [FnStmt("mk", ["n"], [Ret(Fn([], [P(Id("n")), Ret(I(0))]))]), FnStmt("g", ["n"], [Let("cl", Call("mk", Id("n"))), Defer(Call("cl")), P(0), Ret(I(0))]),
+                                        E(Call("g", I(5))), E(Call("g", I(6))), E(Call("g", I(7))), Ret(I(0))])
+    add("defer-name-args-per-invocation", [FnStmt("g", ["n"], [Defer(Call("p", Bin("+", Id("n"), I(100)))), Ret(I(0))]), E(Call("g", I(1))), E(Call("g", I(2))), Ret(I(0))])
     # try nesting
     add("nearest-try", [Try([P(1), Try([P(2), Throw(S("in")), P(3)], "e", [P(Id("e")), P(4)]), P(5)], "e2", [P(6)]), P(7), Ret(I(0))])
     add("rethrow", [Try([Try([Throw(S("a"))], "e", [P(Id("e")), Throw(S("b"))]), P(1)], "e2", [P(Id("e2"))]), P(2), Ret(I(0))])
